@@ -391,7 +391,7 @@ def run(ctx):
     for c in exhaustive_cases(3 if quick else 5):
         cases.append(c)
         n_ex += 1
-    ctx.extra['exhaustive'] = {'cases': n_ex, 'keys': 3, 'on_chain_subsets': 8, 'max_len': 3 if quick else 5}
+    ctx.extra['exhaustive_subspace'] = {'cases': n_ex, 'keys': 3, 'on_chain_subsets': 8, 'max_len': 3 if quick else 5}
     model = ctx.model([model_line(c) for c in cases])
     shrunk = 0
     for i, case in enumerate(cases):
